@@ -163,6 +163,12 @@ pub enum MemOp {
     Resize { c: u8 },
     EvictAll,
     Flush,
+    /// get_or_fetch whose origin future is immediately ready (C16 only)
+    FetchReady { k: u8, w: u8, hold: bool },
+    /// get_or_fetch whose origin future never resolves; the caller is kept until the end (C16 only)
+    FetchPending { k: u8 },
+    /// get_or_fetch whose origin future fails at once (C16 only)
+    FetchFail { k: u8 },
 }
 
 #[derive(Clone, Copy, Debug, PartialEq, Eq, Serialize)]
@@ -274,6 +280,11 @@ pub struct Ctx {
     callbacks: Mutex<Vec<CbObs>>,
     plan: Option<ReentrantPlan>,
     in_callback: AtomicBool,
+    /// re-entrant ops are performed only while this is set (cleared for the final drain so it terminates)
+    reenter_enabled: AtomicBool,
+    /// re-entrant ops left for the current step (entries parked by re-entrant ops are dropped at the next step, and
+    /// their destructors re-enter again: without a budget the number of parked entries doubles every step)
+    reenter_budget: std::sync::atomic::AtomicI64,
     in_resize: AtomicBool,
     multi_shard: bool,
     next_id: AtomicU64,
@@ -299,7 +310,13 @@ impl Ctx {
     fn callback(self: &Arc<Self>, kind: CbKind, reop: ReOp) -> usize {
         let locked = self.locked();
         let mut reentered = false;
-        if locked == 0 && reop != ReOp::None && !self.in_callback.swap(true, Ordering::SeqCst) {
+        if locked == 0
+            && reop != ReOp::None
+            && self.reenter_enabled.load(Ordering::SeqCst)
+            && self.reenter_budget.load(Ordering::SeqCst) > 0
+            && !self.in_callback.swap(true, Ordering::SeqCst)
+        {
+            self.reenter_budget.fetch_sub(1, Ordering::SeqCst);
             if let Some(cache) = self.cache() {
                 reentered = true;
                 match reop {
@@ -518,6 +535,8 @@ pub struct MemSim {
     ctx: Arc<Ctx>,
     cache: Option<Cache<MKey, MVal, SpecHasher>>,
     handles: Vec<Option<Handle>>,
+    rt: Option<tokio::runtime::Runtime>,
+    pending: Vec<std::pin::Pin<Box<foyer::GetOrFetch<MKey, MVal, SpecHasher>>>>,
 }
 
 impl MemSim {
@@ -530,6 +549,8 @@ impl MemSim {
             callbacks: Mutex::new(vec![]),
             plan,
             in_callback: AtomicBool::new(false),
+            reenter_enabled: AtomicBool::new(true),
+            reenter_budget: std::sync::atomic::AtomicI64::new(6),
             in_resize: AtomicBool::new(false),
             multi_shard: cfg.shards > 1,
             next_id: AtomicU64::new(1),
@@ -569,7 +590,16 @@ impl MemSim {
             ctx,
             cache: Some(cache),
             handles: vec![],
+            rt: None,
+            pending: vec![],
         }
+    }
+
+    fn rt(&mut self) -> &tokio::runtime::Runtime {
+        if self.rt.is_none() {
+            self.rt = Some(tokio::runtime::Builder::new_current_thread().build().unwrap());
+        }
+        self.rt.as_ref().unwrap()
     }
 
     fn cache(&self) -> &Cache<MKey, MVal, SpecHasher> {
@@ -645,6 +675,7 @@ impl MemSim {
     }
 
     pub fn step(&mut self, op: &MemOp) -> Step {
+        self.ctx.reenter_budget.store(6, Ordering::SeqCst);
         let ret = match op {
             MemOp::Insert { k, w, low, admit, hold } => {
                 let (key, val) = self.ctx.make(*k as u64, *w as usize, *admit);
@@ -731,6 +762,89 @@ impl MemSim {
                     .expect("memsim pipe flush is immediately ready");
                 Ret::None
             }
+            MemOp::FetchReady { k, w, hold } => {
+                // the value is created by the origin future when it runs: a value that was never handed to the cache is
+                // not "a value of the cache" (the cache may drop an unpolled user future wherever it likes)
+                let key = self.ctx.owned_key(*k as u64);
+                let (ctx, kk, ww) = (CtxRef(self.ctx.clone()), *k as u64, *w as usize);
+                let cache = self.cache().clone();
+                self.rt();
+                let rt = self.rt.as_ref().unwrap();
+                let mut fut = {
+                    let _g = rt.enter();
+                    Box::pin(cache.get_or_fetch(&key, move || async move {
+                        let ctx = ctx;
+                        Ok::<_, anyhow::Error>(ctx.0.make(kk, ww, true).1)
+                    }))
+                };
+                drop(key);
+                rt.block_on(async {
+                    for _ in 0..4 {
+                        tokio::task::yield_now().await;
+                    }
+                });
+                let waker = futures_util::task::noop_waker();
+                let mut cx = std::task::Context::from_waker(&waker);
+                match fut.as_mut().poll(&mut cx) {
+                    std::task::Poll::Ready(Ok(e)) => {
+                        let id = e.value().id;
+                        if *hold {
+                            self.hold(e);
+                        }
+                        Ret::Got(Some(id))
+                    }
+                    std::task::Poll::Ready(Err(_)) => Ret::Got(None),
+                    std::task::Poll::Pending => {
+                        // joined a flight that never resolves
+                        self.pending.push(fut);
+                        Ret::None
+                    }
+                }
+            }
+            MemOp::FetchFail { k } => {
+                let key = self.ctx.owned_key(*k as u64);
+                let cache = self.cache().clone();
+                self.rt();
+                let rt = self.rt.as_ref().unwrap();
+                let mut fut = {
+                    let _g = rt.enter();
+                    Box::pin(cache.get_or_fetch(&key, move || async move {
+                        Err::<MVal, _>(anyhow::anyhow!("simulated origin failure"))
+                    }))
+                };
+                drop(key);
+                rt.block_on(async {
+                    for _ in 0..4 {
+                        tokio::task::yield_now().await;
+                    }
+                });
+                let waker = futures_util::task::noop_waker();
+                let mut cx = std::task::Context::from_waker(&waker);
+                match fut.as_mut().poll(&mut cx) {
+                    std::task::Poll::Ready(r) => Ret::Bool(r.is_ok()),
+                    std::task::Poll::Pending => {
+                        self.pending.push(fut);
+                        Ret::None
+                    }
+                }
+            }
+            MemOp::FetchPending { k } => {
+                let key = self.ctx.owned_key(*k as u64);
+                let cache = self.cache().clone();
+                self.rt();
+                let rt = self.rt.as_ref().unwrap();
+                {
+                    let _g = rt.enter();
+                    let fut = cache.get_or_fetch(&key, move || async move {
+                        std::future::pending::<()>().await;
+                        Err::<MVal, _>(anyhow::anyhow!("unreachable"))
+                    });
+                    self.pending.push(Box::pin(fut));
+                    rt.block_on(async { tokio::task::yield_now().await });
+                }
+                drop(key);
+                Ret::None
+            }
         };
         self.observe(ret)
     }
@@ -765,6 +879,18 @@ impl MemSim {
             let e = sim.cache().insert(key, val);
             drop(e);
             final_inserts.push(sim.observe(Ret::Inserted { id }));
+        }
+        // epilogue 2b: cancel pending fetches (drop callers, then the runtime with its fetch tasks)
+        sim.pending.clear();
+        drop(sim.rt.take());
+        // from here on callbacks only observe (probe) and no longer re-enter, so draining terminates
+        sim.ctx.reenter_enabled.store(false, Ordering::SeqCst);
+        loop {
+            let parked = std::mem::take(&mut *sim.ctx.parked.lock());
+            if parked.is_empty() {
+                break;
+            }
+            drop(parked);
         }
         // epilogue 3: drop the cache
         let taken = sim.ctx.cache.lock().take();
